@@ -34,14 +34,17 @@ type childSpec struct {
 
 // reqSpec is one client request together with the backend's scripted outcomes.
 type reqSpec struct {
-	Kind      string             `json:"kind"` // query | execute | batch
-	Stmt      stmtSpec           `json:"stmt,omitempty"`
-	Children  []childSpec        `json:"children,omitempty"`
-	BatchType int                `json:"batch_type,omitempty"`
-	Graph     bool               `json:"graph,omitempty"`
-	UnknownID bool               `json:"unknown_id,omitempty"` // execute: an id the proxy never saw a PREPARE for
-	Token     string             `json:"token"`
-	Script    []fakecass.Outcome `json:"script"`
+	Kind      string      `json:"kind"` // query | execute | batch
+	Stmt      stmtSpec    `json:"stmt,omitempty"`
+	Children  []childSpec `json:"children,omitempty"`
+	BatchType int         `json:"batch_type,omitempty"`
+	Graph     bool        `json:"graph,omitempty"`
+	UnknownID bool        `json:"unknown_id,omitempty"` // execute: an id the proxy never saw a PREPARE for
+	// Decoy (execute only): before the statement itself is PREPAREd, an idempotent SELECT is PREPAREd and the backend
+	// gives both the same id - the history of PREPAREs redefines what the id means; the last PREPARE counts
+	Decoy  bool               `json:"decoy,omitempty"`
+	Token  string             `json:"token"`
+	Script []fakecass.Outcome `json:"script"`
 }
 
 // positivelyIdempotent is the ground truth the properties refer to.
